@@ -5,6 +5,8 @@ mod logger;
 mod meta_text;
 mod server;
 mod util;
+#[cfg(feature = "verif_hooks")]
+pub mod verif_sync;
 
 pub use clap::Parser;
 pub use cmd_args::*;
@@ -19,6 +21,7 @@ pub mod verif_api {
         ClientConfig, init_analysis, initialized_handler, on_notification_handler,
         on_request_handler, on_response_handler, server_capabilities,
     };
+    pub use crate::verif_sync as sync;
 }
 
 #[macro_use]
